@@ -99,7 +99,8 @@ def make_text(fields) -> str:
     lines = []
     for i, (st, b) in enumerate(fields):
         if st == "#":
-            lines.append({1: f"uint8 p{i};", 2: f"uint16 p{i};", 3: f"uint24 p{i};", 4: f"uint32 p{i};"}[b])
+            # 0: a member that occupies no bytes (it still ends the current storage unit)
+            lines.append({0: [f"uint32 p{i}[0];", f"struct {{ }} p{i};", f"void p{i};"][i % 3], 1: f"uint8 p{i};", 2: f"uint16 p{i};", 3: f"uint24 p{i};", 4: f"uint32 p{i};"}[b])
         else:
             lines.append(f"{st} f{i} : {b};")
     return PRELUDE + "struct main { " + " ".join(lines) + " };"
@@ -139,6 +140,14 @@ def check(run: Run) -> None:
                 st = rng.choice(pool)
                 fs.append((st, rng.randrange(1, storage_bits(st) + 1)))
         shapes.append(fs)
+
+    # a zero-size member between two bit fields of one storage type ends the unit although the offset does not move
+    for st in ("uint8", "uint16", "int32", "uint64", "E8"):
+        w = storage_bits(st)
+        for a, b in ((1, 1), (3, 2), (w // 2, w // 2), (w - 1, 1), (w // 2 + 1, w // 2 + 1)):
+            for lead in ([], [("#", 1)], [("#", 0)]):
+                shapes.append(lead + [(st, a), ("#", 0), (st, b)])
+                shapes.append(lead + [(st, a), ("#", 0), ("#", 0), (st, b), ("#", 2)])
 
     cases, items = [], []
     explained: set = set()
